@@ -87,7 +87,10 @@ def module_calls(path, modname):
                 else:
                     extra = "?"
             if kind == "Qual" and name == "logging.basicConfig":
-                extra = "filename" if any(kw.arg == "filename" for kw in node.keywords) else ""
+                extra = ""
+                for kw in node.keywords:
+                    if kw.arg == "filename":
+                        extra = "filename" if log_name_is_constant(tree, fn, kw.value) else "filename?"
             if kind == "Qual" and name.startswith("subprocess."):
                 a0 = node.args[0] if node.args else None
                 const = isinstance(a0, ast.List) and all(
@@ -99,6 +102,30 @@ def module_calls(path, modname):
             visit(ch, fn)
     visit(tree, None)
     return out, tree
+
+
+def log_name_is_constant(tree, fn_name, value):
+    """the log file name may only be <constant> or os.path.join(self.root_path, <constant>)"""
+    if not isinstance(value, ast.Name):
+        return False
+    fn = next((n for n in ast.walk(tree) if isinstance(n, (ast.FunctionDef,)) and n.name == fn_name), None)
+    if fn is None:
+        return False
+    ok = True
+    seen = False
+    for node in ast.walk(fn):
+        if isinstance(node, ast.Assign) and any(isinstance(t, ast.Name) and t.id == value.id for t in node.targets):
+            seen = True
+            v = node.value
+            if isinstance(v, ast.Constant) and isinstance(v.value, str):
+                continue
+            if (isinstance(v, ast.Call) and src(v.func) == "os.path.join" and len(v.args) == 2 and src(v.args[0]) == "self.root_path"
+                    and isinstance(v.args[1], ast.Name) and v.args[1].id == value.id):
+                continue
+            ok = False
+        elif isinstance(node, (ast.AugAssign, ast.AnnAssign)) and isinstance(getattr(node, "target", None), ast.Name) and node.target.id == value.id:
+            ok = False
+    return ok and seen
 
 
 def evaluator_kinds(tree):
